@@ -13,3 +13,4 @@ open Comrak.C07
 #print axioms pct2X_wellformed
 #print axioms item_exit_restores_prefix
 #print axioms output_keeps_frame
+#print axioms cm_round_trip_canon_partial
